@@ -12,7 +12,7 @@
         //@ end
         open spec fn self_delimiting() -> bool { true }
         open spec fn dec_rel(b: Seq<u8>, v: &u8, k: int) -> bool { true }
-        open spec fn dec_total() -> bool { false }
+        open spec fn dec_total(b: Seq<u8>) -> bool { false }
         open spec fn dec_stop(rest: Seq<u8>) -> bool { true }
         open spec fn functional() -> bool { true }
         proof fn law_dec_bounds(b: Seq<u8>) {}
@@ -40,7 +40,7 @@
         //@ end
         open spec fn self_delimiting() -> bool { true }
         open spec fn dec_rel(b: Seq<u8>, v: &u16, k: int) -> bool { true }
-        open spec fn dec_total() -> bool { false }
+        open spec fn dec_total(b: Seq<u8>) -> bool { false }
         open spec fn dec_stop(rest: Seq<u8>) -> bool { true }
         open spec fn functional() -> bool { true }
         proof fn law_dec_bounds(b: Seq<u8>) {}
@@ -68,7 +68,7 @@
         //@ end
         open spec fn self_delimiting() -> bool { true }
         open spec fn dec_rel(b: Seq<u8>, v: &u32, k: int) -> bool { true }
-        open spec fn dec_total() -> bool { false }
+        open spec fn dec_total(b: Seq<u8>) -> bool { false }
         open spec fn dec_stop(rest: Seq<u8>) -> bool { true }
         open spec fn functional() -> bool { true }
         proof fn law_dec_bounds(b: Seq<u8>) {}
@@ -96,7 +96,7 @@
         //@ end
         open spec fn self_delimiting() -> bool { true }
         open spec fn dec_rel(b: Seq<u8>, v: &u64, k: int) -> bool { true }
-        open spec fn dec_total() -> bool { false }
+        open spec fn dec_total(b: Seq<u8>) -> bool { false }
         open spec fn dec_stop(rest: Seq<u8>) -> bool { true }
         open spec fn functional() -> bool { true }
         proof fn law_dec_bounds(b: Seq<u8>) {}
@@ -124,7 +124,7 @@
         //@ end
         open spec fn self_delimiting() -> bool { true }
         open spec fn dec_rel(b: Seq<u8>, v: &usize, k: int) -> bool { true }
-        open spec fn dec_total() -> bool { false }
+        open spec fn dec_total(b: Seq<u8>) -> bool { false }
         open spec fn dec_stop(rest: Seq<u8>) -> bool { true }
         open spec fn functional() -> bool { true }
         proof fn law_dec_bounds(b: Seq<u8>) {}
@@ -153,7 +153,7 @@
         //@ end
         open spec fn self_delimiting() -> bool { true }
         open spec fn dec_rel(b: Seq<u8>, v: &u8, k: int) -> bool { true }
-        open spec fn dec_total() -> bool { false }
+        open spec fn dec_total(b: Seq<u8>) -> bool { false }
         open spec fn dec_stop(rest: Seq<u8>) -> bool { true }
         open spec fn functional() -> bool { true }
         proof fn law_dec_bounds(b: Seq<u8>) {}
@@ -181,7 +181,7 @@
         //@ end
         open spec fn self_delimiting() -> bool { true }
         open spec fn dec_rel(b: Seq<u8>, v: &u16, k: int) -> bool { true }
-        open spec fn dec_total() -> bool { false }
+        open spec fn dec_total(b: Seq<u8>) -> bool { false }
         open spec fn dec_stop(rest: Seq<u8>) -> bool { true }
         open spec fn functional() -> bool { true }
         proof fn law_dec_bounds(b: Seq<u8>) {}
@@ -209,7 +209,7 @@
         //@ end
         open spec fn self_delimiting() -> bool { true }
         open spec fn dec_rel(b: Seq<u8>, v: &u32, k: int) -> bool { true }
-        open spec fn dec_total() -> bool { false }
+        open spec fn dec_total(b: Seq<u8>) -> bool { false }
         open spec fn dec_stop(rest: Seq<u8>) -> bool { true }
         open spec fn functional() -> bool { true }
         proof fn law_dec_bounds(b: Seq<u8>) {}
@@ -237,7 +237,7 @@
         //@ end
         open spec fn self_delimiting() -> bool { true }
         open spec fn dec_rel(b: Seq<u8>, v: &u64, k: int) -> bool { true }
-        open spec fn dec_total() -> bool { false }
+        open spec fn dec_total(b: Seq<u8>) -> bool { false }
         open spec fn dec_stop(rest: Seq<u8>) -> bool { true }
         open spec fn functional() -> bool { true }
         proof fn law_dec_bounds(b: Seq<u8>) {}
@@ -265,7 +265,7 @@
         //@ end
         open spec fn self_delimiting() -> bool { true }
         open spec fn dec_rel(b: Seq<u8>, v: &usize, k: int) -> bool { true }
-        open spec fn dec_total() -> bool { false }
+        open spec fn dec_total(b: Seq<u8>) -> bool { false }
         open spec fn dec_stop(rest: Seq<u8>) -> bool { true }
         open spec fn functional() -> bool { true }
         proof fn law_dec_bounds(b: Seq<u8>) {}
